@@ -14,6 +14,8 @@ def evaluate(ck, data, rules, docg):
             rid = r["rule"]
             if r["c02"]:
                 n_same += 1
+            elif T.is_trailing_remover(rules, rid) and r["c02_rem"] and not r.get("c02_trail", True):
+                ck.violation("edit-removes-own-line-comment:" + rid, "%s: %s is documented to remove trailing comments but removed a comment that stands on a line of its own" % (T.tag(o), rid), T.rep(o, r, oracle="edit"))
             elif T.is_remover(rules, rid) and r["c02_rem"]:
                 n_removed += 1
                 removers_fired = True
